@@ -37,6 +37,7 @@ async def update() -> None:
 
     global _last_time
     global _update_lock
+    global _force_eval_all_expressions
 
     if not _updating_enabled:
         return
@@ -45,6 +46,13 @@ async def update() -> None:
         _update_lock = asyncio.Lock()
 
     async with _update_lock:
+        # Forced evaluations are taken before polling: an evaluation forced while this pass is already running (e.g.
+        # a port enabled after its turn) is served by the next pass, which polls that port first
+        forced_ports = set(_force_eval_expression_ports)
+        _force_eval_expression_ports.clear()
+        full_eval = _force_eval_all_expressions
+        _force_eval_all_expressions = False
+
         changed_set: set[Union[core_ports.BasePort, str]] = {'asap'}
         value_pairs = {}
 
@@ -93,7 +101,7 @@ async def update() -> None:
                 changed_set.add(port)
                 value_pairs[port] = old_value, new_value
 
-        await handle_value_changes(changed_set, value_pairs, now)
+        await handle_value_changes(changed_set, value_pairs, now, forced_ports, full_eval)
 
         sessions.update()
 
@@ -116,6 +124,8 @@ async def handle_value_changes(
     changed_set: set[Union[core_ports.BasePort, str]],
     value_pairs: dict[core_ports.BasePort, tuple[NullablePortValue, NullablePortValue]],
     now: float,
+    forced_ports: Optional[set[core_ports.BasePort]] = None,
+    full_eval: Optional[bool] = None,
 ) -> None:
     global _force_eval_all_expressions
 
@@ -127,11 +137,13 @@ async def handle_value_changes(
     #  * `$`-prefixed port ids
     #  * time strings
 
-    forced_ports = set(_force_eval_expression_ports)
-    _force_eval_expression_ports.clear()
+    if forced_ports is None:
+        forced_ports = set(_force_eval_expression_ports)
+        _force_eval_expression_ports.clear()
 
-    full_eval = _force_eval_all_expressions
-    _force_eval_all_expressions = False
+    if full_eval is None:
+        full_eval = _force_eval_all_expressions
+        _force_eval_all_expressions = False
 
     now_ms = int(now * 1000)
 
